@@ -36,6 +36,8 @@ pub fn wconfigs(thorough: bool) -> Vec<WCfg> {
         WCfg { name: "oversized-item", cap: 2, threads: vec![vec![Push(1, 1), Push(2, 3), Push(0, 1)], vec![Pull, Pull, Pull]], must_complete: true },
         WCfg { name: "3p-blocked-1c-closer", cap: 1, threads: vec![vec![Push(1, 1)], vec![Push(2, 1)], vec![Push(0, 1)], vec![Pull], vec![Close]], must_complete: true },
     ];
+    v.push(WCfg { name: "try-ops-vs-close", cap: 2, threads: vec![vec![TryPush(1, 1), TryPush(2, 1)], vec![Close], vec![TryPull, Pull], vec![Push(0, 1)]], must_complete: true });
+    v.push(WCfg { name: "zero-size-items", cap: 2, threads: vec![vec![Push(1, 0), Push(2, 1), Push(0, 0)], vec![TryPull, TryPull, Pull], vec![Pull], vec![Close]], must_complete: true });
     if thorough {
         v.push(WCfg { name: "2p3c-closer-try", cap: 2, threads: vec![vec![Push(1, 1), TryPush(2, 2), Push(0, 1)], vec![Push(2, 1), Push(1, 0)], vec![Pull, TryPull], vec![Pull], vec![Pull, Pull], vec![Close]], must_complete: true });
     }
@@ -172,6 +174,11 @@ pub fn run() -> i32 {
     let mut branches_total = 0u64;
     let mut per = Vec::new();
     let mut any_cap = false;
+    // two passes: designated points only (deeper bound), then EVERY runtime scheduling point as a branch
+    // point (check-then-act windows between two lock acquisitions) with a smaller bound
+    let passes: Vec<(bool, usize)> = vec![(false, bound), (true, if th { 3 } else { 2 })];
+    for (all_points, bound) in passes {
+    ALL_POINTS.store(all_points, std::sync::atomic::Ordering::Relaxed);
     for cfg in &cfgs {
         let c2 = cfg.clone();
         let mut traces: HashSet<u64> = HashSet::new();
@@ -200,8 +207,10 @@ pub fn run() -> i32 {
         any_cap |= capped;
         total += n;
         traces_total += traces.len() as u64;
-        per.push(json!({"config": cfg.name, "executions": n, "distinct_event_traces": traces.len(), "distinct_outcomes": outcomes.len(), "cap_hit": capped}));
+        per.push(json!({"config": cfg.name, "every_sync_op_is_a_branch_point": all_points, "deviation_bound": bound, "executions": n, "distinct_event_traces": traces.len(), "distinct_outcomes": outcomes.len(), "cap_hit": capped}));
     }
+    }
+    ALL_POINTS.store(false, std::sync::atomic::Ordering::Relaxed);
     rep.eval(total);
     rep.nontriv(traces_total);
     rep.set("states", json!(traces_total));
